@@ -278,6 +278,16 @@ func runC05(r *Run, rng *Rng, thorough bool) {
 			r.Case(class+"/"+entryNames[e], false, "envelope "+hx(buf), acc)
 		case 1:
 			r.Case(class+"/"+entryNames[e], false, "decv "+hx(buf), decv(buf).line)
+		case 7:
+			r.Case(class+"/"+entryNames[e], false, "pop two "+hx(buf), res)
+		case 11:
+			out := res
+			if res == "ok" {
+				om := encoding.VerifNewOrderedMapCBOR()
+				_ = om.FromCBOR(extDM, append([]byte{}, buf...))
+				out = fmt.Sprintf("ok keys=%d", len(om.Keys()))
+			}
+			r.Case(class+"/"+entryNames[e], false, "omap "+hx(buf), out)
 		default:
 			r.ImplOnly(class+"/"+entryNames[e], false, op)
 		}
